@@ -109,7 +109,7 @@ func (r *c05RoleMap) resolve() {
 	}
 	// --- cas.Memory
 	if st := c05StructOf(p.Named("internal/cas", "Memory")); st != nil {
-		r.field["cas.content"] = c05UniqueField(st, func(t types.Type) bool { return c05IsNamedType(t, "sync", "Map") })
+		r.field["cas.content"] = c05UniqueField(st, c05IsSyncMapLike)
 	}
 	// --- resolver.Memory
 	if st := c05StructOf(p.Named("internal/resolver", "Memory")); st != nil {
@@ -254,16 +254,16 @@ func (r *c05RoleMap) resolve() {
 		// digestToPath: the sync.Map field of Store that is accessed with a digest.Digest key
 		cand := map[string]bool{}
 		for _, f := range c05FuncsOfPkg(p, "content/file") {
-			for _, call := range Calls(f, func(n string) bool { return strings.HasPrefix(n, "(*sync.Map).") }) {
-				a := call.Common().Args
-				if len(a) < 2 {
+			for _, call := range Calls(f, func(string) bool { return true }) {
+				mv := c05MapOp(call)
+				if mv == nil || mv.Key == nil {
 					continue
 				}
-				fa, ok := a[0].(*ssa.FieldAddr)
+				fa, ok := mv.Recv.(*ssa.FieldAddr)
 				if !ok || !c05IsNamedType(fa.X.Type(), "content/file", "Store") {
 					continue
 				}
-				if mi, ok := a[1].(*ssa.MakeInterface); ok && c05IsNamedType(mi.X.Type(), "go-digest", "Digest") {
+				if c05IsNamedType(strip(mv.Key).Type(), "go-digest", "Digest") {
 					cand[c05FieldNameOf(fa.X.Type(), fa.Field)] = true
 				}
 			}
